@@ -230,7 +230,9 @@ def c19_case(draw):
         extras.append({"k": "var", "n": nm, "flag": str(draw(st.sampled_from((0, 2, 3)))), "v": draw(N.num_literal(forms=("dec", "neg", "int", "Exp"))),
                        "e": draw(st.sampled_from(("0", "0.5", "1e-3", "0.0")))})
     return {"event": list(event), "amps": amps, "c": cs, "extras": extras, "kmatrix_family": draw(st.integers(0, 9)) > 0,
-            "order": draw(st.integers(0, 5)), "py_first": draw(st.booleans())}
+            "order": draw(st.integers(0, 5)), "py_first": draw(st.booleans()),
+            # the lines of the K-matrix parameter family in file order or shuffled (the arrays are ordered by index, not by position)
+            "fam_order": draw(st.one_of(st.none(), st.permutations(list(range(len(A.KMATRIX_ITEMS))))))}
 
 
 def to_ast(case):
@@ -239,6 +241,8 @@ def to_ast(case):
     spl = A.spline_items(gs, None)
     lines = [{"k": "line", "t": a["tree"], "c": c} for a, c in zip(case["amps"], case["c"])]
     fam = list(A.KMATRIX_ITEMS) if (case["kmatrix_family"] or has_kmatrix(case)) else []
+    if fam and case.get("fam_order"):
+        fam = [fam[i] for i in case["fam_order"]]
     blocks = [spl, lines, case["extras"], fam]
     k = case["order"]
     blocks = blocks[k % 4:] + blocks[: k % 4]
